@@ -309,7 +309,8 @@ def run_jaxley_chain(module, topo, P, dt, solver, tag, timeout_ms=30000):
             return ch.step(fname, byname, lambda: real(*args))
         return wrapper
     for fname in RETURNS:
-        over[fname] = make(fname)
+        if hasattr(SV, fname):          # a boundary function that was renamed / inlined is simply no boundary any more
+            over[fname] = make(fname)
     real_tb = rt.reglob(SV._triang_branched).__reglob__
     real_bb = rt.reglob(SV._backsub_branched).__reglob__
 
